@@ -30,13 +30,11 @@ def showRes (r : Except String (String × Rat × ND)) : String :=
   | .error e => "err " ++ e
 
 /-- pointwise definitions (what the theorems are stated about), for cross-checking the tabulated versions -/
-def specOps (kind : String) (d : Nat) (het : String) (ns : List Nat) (grids : List (Array Rat)) (Fs : List Rat)
+def specOps (kind : String) (het : String) (ns : List Nat) (grids : List (Array Rat)) (Fs : List Rat)
     (pls : List Nat) : List LineOp :=
-  (List.range d).map fun a =>
-    let n := ns.getD a 0; let g := grids.getD a #[]
-    if kind = "linalg" then analyticOp a n g.size (gridFn g)
-    else if kind = "direct" then directOp d a n g.size (het == Gen.FromPhi.hetKey d a) (gridFn g)
-    else inbOp d a n (pls.getD a 1) g.size (Gen.FromPhi.inbFClamp (Fs.getD a 0)) (het == Gen.FromPhi.inbHetKey d a) (gridFn g)
+  if kind = "linalg" then linalgOps ns grids
+  else if kind = "direct" then directOps het ns grids
+  else inbOps het ns grids Fs pls
 
 def handle (toks : List String) : Option String :=
   match toks with
@@ -86,7 +84,7 @@ def handle (toks : List String) : Option String :=
       let d := grids.length
       if T.shape ≠ grids.map (·.size) ∨ ns.length ≠ d then some "err shape"
       else
-        let ops := specOps kind d (hetOf het) ns grids Fs pls
+        let ops := specOps kind (hetOf het) ns grids Fs pls
         some ("ok " ++ showND (ND.ofFn (ns.map (· + 1)) (sampleND ops T.get)))
   | ["spec1d", n, g, phi] => do
       let n ← n.toNat?; let g ← parseList g; let phi ← parseList phi
